@@ -364,7 +364,7 @@ Proof.
   intros Ha. unfold process_sys. rewrite Ha.
   assert (Q0 : RR a s []) by (eapply RR_quiet; [exact Ha|apply idf_refl|reflexivity]).
   match goal with |- context [if ?d then _ else _] => destruct d end; [intros H; inversion H; subst; exact Q0|].
-  destruct (e_msg e) as [| |g|who| |r| | | |].
+  destruct (e_msg e) as [| |g|who| |r| | | | |].
   - (* SLaunch *) apply RR_handle_then; [exact Ha|]. intros s1 a1 s2 o2 p2 G1 H; inversion H; subst.
     eapply RR_quiet; [exact G1|apply id_upd; intros b; split; reflexivity|reflexivity].
   - (* SRestarted *) apply RR_handle; exact Ha.
@@ -405,6 +405,8 @@ Proof.
   - (* SUnwatch *) intros H; inversion H; subst. eapply RR_quiet; [exact Ha|apply id_upd; intros b; split; reflexivity|reflexivity].
   - intros H; inversion H; subst; exact Q0.
   - intros H; inversion H; subst; exact Q0.
+  - (* SResumeReq *) destruct (a_st a); intros H; inversion H; subst; try exact Q0.
+    eapply RR_quiet; [exact Ha|apply id_deliver_sys|reflexivity].
 Qed.
 
 (* processing the OnLaunch message shows no Handled observation other than OnLaunch *)
